@@ -170,6 +170,13 @@ def family_frames(seed, tier):
                 nb = bytearray(good)
                 nb[0] = rnd.choice([0x00, 0x43, 0x62, 0xFF])
                 yield dict(key=key, frame=bytes(nb), n=n)
+                if lb % 16 in (2, 3, 11):
+                    # distinguished stored checksums: 0000, FFFF, one byte zeroed, bytes swapped, complemented
+                    for ck in (b"\x00\x00", b"\xff\xff", bytes([c >> 8, 0]), bytes([0, c & 255]), bytes([c & 255, c >> 8]),
+                               (c ^ 0xFFFF).to_bytes(2, "big")):
+                        z = bytearray(good)
+                        z[n - 2:n] = ck
+                        yield dict(key=key, frame=bytes(z), n=n)
             else:
                 yield dict(key=key, frame=bytes(fr), n=n)
         yield dict(key=key, frame=bytes(n), n=n)
